@@ -4,9 +4,9 @@ From VV.MYSQL Require Import SpecFk ModifyP SimP SimKeysP SimCreateP SimFkP.
 From Coq Require Import Lia.
 
 (* ---------- clear_inline only touches inline fields, which the catalog never reads ---------- *)
-Definition core (c : column_def) := (c_name c, c_type c, c_nullable c, c_default c).
+Definition core (c : column_def) := (c_name c, c_type c, c_nullable c, c_default c, c_comment c).
 Lemma mk_mcol_core : forall ks c c', core c = core c' -> mk_mcol ks c = mk_mcol ks c'.
-Proof. intros ks c c' H. unfold core in H. inversion H as [[H1 H2 H3 H4]]. unfold mk_mcol. rewrite H1, H2, H3, H4. reflexivity. Qed.
+Proof. intros ks c c' H. unfold core in H. inversion H as [[H1 H2 H3 H4 H5]]. unfold mk_mcol. rewrite H1, H2, H3, H4. reflexivity. Qed.
 
 Lemma modify_first_core : forall p f cols, (forall c, core (f c) = core c) -> map core (modify_first p f cols) = map core cols.
 Proof.
